@@ -163,9 +163,12 @@ std::string gen_posix_footer(Rng* r, bool valid) {
   std::string s = r->pick(stds) + r->pick(offs);
   // Abbreviations are byte strings: letters beyond ASCII (as an 8-bit or UTF-8 locale would write them), blanks, punctuation.
   if (r->chance(0.06)) s = r->pick(std::vector<std::string>{"\xc4ST", "\xd6\xc4Z", "M\xc3\x89Z", "E\xa0T", "A_B", "e.s.t", "E T", "\xb2\xb3\xb9", "I\xfdi"}) + r->pick(offs);
+  // Abbreviations have no length limit in the grammar: a quoted one of hundreds or thousands of characters is a valid sentence.
+  auto long_abbr = [&]() { return "<" + std::string(static_cast<size_t>(r->pick(std::vector<int>{100, 200, 250, 254, 255, 256, 500, 1000, 1100, 2000, 4000})), static_cast<char>('A' + r->below(26))) + ">"; };
+  if (r->chance(0.02)) s = long_abbr() + r->pick(offs);
   if (r->chance(0.75)) {
     static const std::vector<std::string> dsts = {"EDT", "<-02>", "CEST", "<+0430>", "NZDT", "XDT"};
-    s += r->chance(0.05) ? r->pick(std::vector<std::string>{"\xd6""DT", "\xc3\x89T\xc3\x89", "D\xa0T", "d_t"}) : r->pick(dsts);
+    s += r->chance(0.05) ? r->pick(std::vector<std::string>{"\xd6""DT", "\xc3\x89T\xc3\x89", "D\xa0T", "d_t"}) : (r->chance(0.03) ? long_abbr() : r->pick(dsts));
     if (r->chance(0.4)) s += r->pick(offs);
     if (r->chance(0.12)) s += ",0/0,J365/" + std::to_string(r->range(23, 26));  // all-year-DST shape
     else { s += "," + gen_date(r) + "," + gen_date(r); }
